@@ -117,10 +117,12 @@ def gen_task(g, name, H):
         if g.chance(25):
             t["allowed"] = sorted(set(g.draw(st.lists(st.integers(1, 4), min_size=1, max_size=3))))
     grid = sorted(set([-1, 0, 1, 2, Hh - 1, Hh, Hh + 1]))
+    ml = min_len(t)
     if g.chance(g.p["p_release"]):
-        t["release"] = g.pick(grid)
+        t["release"] = g.pick(grid) if g.chance(15) else g.int(0, max(0, Hh - ml))
     if g.chance(g.p["p_due"]):
-        t["due"] = g.pick(grid)
+        lo = max(0, t.get("release") or 0) + ml
+        t["due"] = g.pick(grid) if g.chance(15) or lo > Hh else g.int(lo, Hh)
         t["deadline"] = g.chance(70)
     if g.chance(20):
         t["priority"] = g.int(0, 3)
@@ -220,7 +222,19 @@ def gen_resources(g, spec, H):
                 )
                 spec["assign"].append({"task": t["name"], "res": sname})
         if used and g.chance(g.p["p_work_amount"]):
-            t["work_amount"] = g.int(1, max(1, 2 * max(1, max_len(t, H))))
+            prod = 0
+            wmap = {w["name"]: w for w in spec["workers"]}
+            for u in used:
+                if u in wmap:
+                    pr = wmap[u].get("productivity")
+                    prod += 1 if pr is None else pr
+                else:
+                    prod += 1
+            cap = prod * min(max_len(t, H), 4)
+            if cap >= 1 and g.chance(90):
+                t["work_amount"] = g.int(1, cap)
+            elif cap >= 1 or g.chance(10):
+                t["work_amount"] = g.int(cap + 1, 2 * cap + 2)
 
 
 def assigned_resources(spec):
@@ -238,7 +252,12 @@ def assigned_resources(spec):
 
 def gen_intervals(g, H, lo_n=1, hi_n=2, top=None):
     Hh = (H if H is not None else 6) if top is None else top
-    return [g.interval(0, max(1, Hh)) for _ in range(g.int(lo_n, hi_n))]
+    out = []
+    for _ in range(g.int(lo_n, hi_n)):
+        iv = g.interval(0, max(1, Hh))
+        if iv not in out:  # a repeated interval is rejected by the library ("assertion already added")
+            out.append(iv)
+    return out
 
 
 def gen_task_constraint(g, ty, spec, H):
@@ -642,7 +661,11 @@ def pin_sets(draw, spec, n_sets=6, max_atoms=3):
 
 
 @st.composite
-def spec_with_pins(draw, prof=None, n_sets=6):
+def spec_with_pins(draw, prof=None, n_sets=6, n_cands=0):
     spec = draw(specs(prof))
-    pins = draw(pin_sets(spec, n_sets=n_sets))
-    return {"spec": spec, "pins": pins, "seed": draw(st.integers(0, 2**30))}
+    pins = draw(pin_sets(spec, n_sets=n_sets)) if n_sets else []
+    case = {"spec": spec, "pins": pins, "seed": draw(st.integers(0, 2**30))}
+    if n_cands:
+        k = len(spec["tasks"]) + len(spec["assign"])
+        case["cand_ints"] = draw(st.lists(st.lists(st.integers(0, 40), min_size=k, max_size=k), min_size=n_cands, max_size=n_cands))
+    return case
